@@ -121,6 +121,9 @@ type FnTrans struct {
 	useBytes bool
 	sentinels map[string]string
 	ranges map[*ssa.Range]*rangeState
+	ghostDone map[*ssa.Return]bool
+	earlyRes map[ssa.Value]string
+	compT map[string]types.Type
 }
 
 type deferRec struct {
@@ -227,6 +230,7 @@ func (t *FnTrans) oblPrefix() string {
 // ---------- types & sorts ----------
 
 func (t *FnTrans) resolve(T types.Type) types.Type {
+	T = types.Unalias(T)
 	switch x := T.(type) {
 	case *types.TypeParam:
 		if r, ok := t.subst[x.Obj().Name()]; ok {
@@ -430,7 +434,10 @@ func (t *FnTrans) get(comp string) string {
 	}
 	// first reference anywhere: entry version
 	n := q(comp + "@0")
-	t.declare(n, s)
+	if !t.declared[n] {
+		t.declare(n, s)
+		t.typedFresh(comp, n)
+	}
 	if _, ok := t.entry.H[comp]; !ok {
 		t.entry.H[comp] = n
 	}
@@ -505,6 +512,7 @@ func (t *FnTrans) load(p *Ptr) string {
 		}
 		return app("mk_"+s, fs...)
 	}
+	t.noteCompType(p, T)
 	switch p.Kind {
 	case "field", "cell":
 		t.comp(p.Comp, "(Array Int "+t.sortOf(T)+")")
@@ -517,6 +525,10 @@ func (t *FnTrans) load(p *Ptr) string {
 		return app("select", app("select", t.get(p.Comp), p.Ref), p.Idx)
 	case "arrelem":
 		return app("select", t.load(p.In), p.Idx)
+	case "elemrow":
+		at := t.resolve(T).Underlying().(*types.Array)
+		t.comp(p.Comp, "(Array Int (Array Int "+t.sortOf(at.Elem())+"))")
+		return app("select", t.get(p.Comp), p.Ref)
 	}
 	t.fail("load: bad pointer kind %s", p.Kind)
 	return ""
@@ -531,6 +543,7 @@ func (t *FnTrans) store(p *Ptr, v string) {
 		}
 		return
 	}
+	t.noteCompType(p, T)
 	switch p.Kind {
 	case "field", "cell":
 		t.comp(p.Comp, "(Array Int "+t.sortOf(T)+")")
@@ -545,9 +558,72 @@ func (t *FnTrans) store(p *Ptr, v string) {
 		t.set(p.Comp, app("store", h, p.Ref, app("store", app("select", h, p.Ref), p.Idx, v)))
 	case "arrelem":
 		t.store(p.In, app("store", t.load(p.In), p.Idx, v))
+	case "elemrow":
+		at := t.resolve(T).Underlying().(*types.Array)
+		t.comp(p.Comp, "(Array Int (Array Int "+t.sortOf(at.Elem())+"))")
+		t.set(p.Comp, app("store", t.get(p.Comp), p.Ref, v))
 	default:
 		t.fail("store: bad pointer kind %s", p.Kind)
 	}
+}
+
+func (t *FnTrans) noteCompType(p *Ptr, T types.Type) {
+	if p.Comp == "" {
+		return
+	}
+	if _, ok := t.compT[p.Comp]; ok {
+		return
+	}
+	switch p.Kind {
+	case "field", "cell", "global", "elem":
+		t.compT[p.Comp] = t.resolve(T)
+	case "elemrow":
+		if at, ok := t.resolve(T).Underlying().(*types.Array); ok {
+			t.compT[p.Comp] = t.resolve(at.Elem())
+		}
+	}
+}
+
+// typedFresh: facts that every version of a heap component satisfies because of Go's typing
+// (integer fields stay in the range of their type, slices are well formed).
+func (t *FnTrans) typedFresh(comp, term string) {
+	T, ok := t.compT[comp]
+	if !ok {
+		return
+	}
+	s := t.compSort[comp]
+	body := func(x string) string {
+		if ii, ok := intInfoOf(T); ok {
+			return ii.inRange(x)
+		}
+		if _, ok := T.Underlying().(*types.Slice); ok {
+			return app("wf-slice", x)
+		}
+		return ""
+	}
+	switch {
+	case strings.HasPrefix(s, "(Array Int (Array Int "):
+		x := app("select", app("select", term, "tf$r"), "tf$i")
+		if b := body(x); b != "" {
+			t.emit(fmt.Sprintf("(assert (forall ((tf$r Int) (tf$i Int)) (! %s :pattern (%s))))", b, x))
+		}
+	case strings.HasPrefix(s, "(Array Int "):
+		x := app("select", term, "tf$r")
+		if b := body(x); b != "" {
+			t.emit(fmt.Sprintf("(assert (forall ((tf$r Int)) (! %s :pattern (%s))))", b, x))
+		}
+	default:
+		if b := body(term); b != "" {
+			t.emit("(assert " + b + ")")
+		}
+	}
+}
+
+// freshVersion declares a new unconstrained version of a component.
+func (t *FnTrans) freshVersion(comp, hint string) string {
+	n := t.newConst(comp+hint, t.compSort[comp])
+	t.typedFresh(comp, n)
+	return n
 }
 
 // fieldPtr: pointer to field i of the struct pointed to by p.
@@ -581,6 +657,10 @@ func (t *FnTrans) ptrFromRef(ref string, elem types.Type) *Ptr {
 	elem = t.resolve(elem)
 	if _, ok := elem.Underlying().(*types.Struct); ok {
 		return &Ptr{Kind: "obj", Ref: ref, T: elem}
+	}
+	if at, ok := elem.Underlying().(*types.Array); ok {
+		// arrays reached through a pointer live in the element heap (row = the array's address)
+		return &Ptr{Kind: "elemrow", Comp: "E." + mangle(t.sortOf(at.Elem())), Ref: ref, T: elem}
 	}
 	return &Ptr{Kind: "cell", Comp: "C." + mangle(t.sortOf(elem)), Ref: ref, T: elem}
 }
